@@ -14,6 +14,8 @@ TFS_ALL = ["S1", "S30", "S45", "T1", "T2", "T5", "T7", "T45", "H1", "H4", "H5", 
 GAPS = "01hmtp2x5"
 FIRSTS = "b+m-"
 SHAPEWORDS = ["UDJLHFVZ", "LHFUDJZV", "JZUVLDHF"]
+# words with value-equal neighbours: an exact re-delivery of a candle must be merged (volume counted twice), not dropped
+REPEATWORDS = ["UUDDJJLL", "UUUUUUUU", "UDDDJJJU"]
 HOSTS = ["cm", "ind", "hexm", "hexd"]
 
 
@@ -76,13 +78,13 @@ def schedules(n):
 
 
 def explore(item):
-    prop, tier, tf, n, first, g0s = item
+    prop, tier, tf, n, first, g0s = item[:6]
     sp = spaces(tier)
     rep = Report()
     fill = prop == "C12"
     tfsec = A.tf_seconds(tf)
     var = A.variant()
-    word = SHAPEWORDS[var["rot"] % len(SHAPEWORDS)]
+    word = SHAPEWORDS[var["rot"] % len(SHAPEWORDS)] if len(item) < 7 else REPEATWORDS[item[6]]
     for g0 in g0s:
         for rest in A.words(GAPS, n - 2) if n >= 2 else [""]:
             gaps = g0 + rest if n >= 2 else ""
@@ -164,12 +166,18 @@ def main(prop, tier):
             for first in FIRSTS:
                 for g in GAPS:
                     items.append((prop, tier, tf, n, first, g))
+    rtfs = ["S1", "T2", "H4", "D1"] if tier == "quick" else sp["tfs"]
+    for tf in rtfs:
+        for wi in range(len(REPEATWORDS)):
+            for n in range(2, sp["n"] + 1):
+                for first in FIRSTS:
+                    items.append((prop, tier, tf, n, first, GAPS, wi))
     rep = merge_all(pmap(explore, items))
     rule = ("every gap word over {dup,1s,tf/2,tf-1,tf,tf+1,2tf,2.5tf,5tf+1}^(n-1) x first-candle offset {on boundary,+1s,mid,-1s} "
             "x timeframe x host {CandleManager, Indicator, Hexital member timeframe, Hexital default timeframe} x preload k x every "
             "composition of the rest into appends x 0..2 extra collapse passes after each step, compared with the reference resampler; "
             "non-trivial = distinct case in which at least two candles share a bucket (or a fill candle is inserted) and the comparison ran")
     bounds = {"timeframes": sp["tfs"], "n": sp["n"], "deep_timeframes": sp["deep_tfs"], "deep_n": sp["deep_n"],
-              "gaps": GAPS, "firsts": FIRSTS, "extras": sp["extras"], "hosts": HOSTS, "variant": A.variant()}
+              "gaps": GAPS, "firsts": FIRSTS, "extras": sp["extras"], "hosts": HOSTS, "variant": A.variant(), "repeat_shape_words": REPEATWORDS}
     return finish(prop, tier, rep, t0, rule=rule, bounds=bounds, replay_confirm=replay,
                   assumptions=["process TZ=UTC (zone dependence is C18)", "second-resolution naive timestamps, non-decreasing"])
